@@ -209,6 +209,12 @@ func worker(c *vf.Ctx, bin string, w, workers, nsets, nexpr int) {
 				n, p := g.edgeProbe(k)
 				jobs = append(jobs, job{n, p})
 			}
+			// plus nexpr/10 *_over_time probes whose window starts, ends or sits on a NaN / Inf sample
+			for k := 0; k < nexpr/10; k++ {
+				if n, p, ok := g.nanProbe(k); ok {
+					jobs = append(jobs, job{n, p})
+				}
+			}
 			// plus nexpr/8 selectors with several matchers of which one is a regular expression
 			// whose anchoring decides the answer
 			for k := 0; k < nexpr/8; k++ {
